@@ -942,9 +942,27 @@ func dashboardRange(e *core.Env, key string) {
 			if rec.Code != 200 {
 				return fmt.Sprintf("the dashboard refused to store the integration: %d %s", rec.Code, trunc2(rec.Body.String()))
 			}
+			// a second integration stored after it, with ANOTHER range: each keeps its own
+			g2 := gIg{name: "igother", enabled: true, srcs: []string{"s1"}, refs: [][3]uint64{{0, rng[0] + 4, 0}}}
+			root2 := config.Root{Integrations: []config.Integration{g2.cfg()}}
+			config.ValidateFix(&root2)
+			if conn, err := pool.Acquire(ctx); err == nil {
+				config.Migrate(ctx, conn, root2)
+				conn.Release()
+			}
+			rec2 := httptest.NewRecorder()
+			wh.SaveIntegration(rec2, httptest.NewRequest("POST", "/save-integration", strings.NewReader(g2.json())))
+			if rec2.Code != 200 {
+				return fmt.Sprintf("the dashboard refused to store the second integration: %d %s", rec2.Code, trunc2(rec2.Body.String()))
+			}
 			ts, err := shovel.VerifLoadTasks(ctx, pool, conf)
 			if err != nil {
 				return "load: " + err.Error()
+			}
+			for _, t := range ts {
+				if t.IG == "igother" && (t.Start != rng[0]+4 || t.Stop != 0) {
+					return fmt.Sprintf("igother was submitted with start %d and no stop, it is loaded with start %d stop %d", rng[0]+4, t.Start, t.Stop)
+				}
 			}
 			found := false
 			for _, t := range ts {
